@@ -934,6 +934,9 @@ func (v *fnVC) rangeInit(i *ssa.Range, st *State) {
 		}
 		vs := v.e.sortOf(mt.Elem())
 		v.rangeHas[i] = st.get(mapHeap(ks, vs, "has"), arrSort(sRef, arrSort(ks, sBool))).S
+	} else {
+		// range over a string: no byte index has been yielded yet
+		st.set(visitedHeap(i), mk(fmt.Sprintf("((as const %s) false)", arrSort(sI64, sBool).SMT()), arrSort(sI64, sBool)))
 	}
 }
 
@@ -956,7 +959,19 @@ func (v *fnVC) next(i *ssa.Next, st *State) {
 			sapp("=>", sapp("bvuge", sapp("sat", x.S, idx.S), bvLit(128, 8)), sapp("bvsge", r.S, bvLit(128, 32))),
 		), sBool)))
 		v.vals[i] = &T{Sort: e.sortOf(tt), Tuple: []*T{ok, idx, r}}
-		e.uses["range over string: each iteration yields an in-range index; a byte < 0x80 decodes to itself, anything else to a rune >= 0x80 (iteration order/completeness not modelled)"] = true
+		// ghost set of yielded byte indices: a yielded index is new; when the range is exhausted every
+		// ASCII byte has been yielded on its own (a byte < 0x80 always starts a rune in Go's decoding,
+		// also after a truncated sequence), and every other byte was yielded or belongs to the rune of a
+		// yielded non-ASCII byte at most three positions before it.
+		vs := arrSort(sI64, sBool)
+		vis := st.get(visitedHeap(rng), vs)
+		e.assume(tImp(ok, mk(sapp("not", sapp("select", vis.S, idx.S)), sBool)))
+		e.fresh++
+		qj := fmt.Sprintf("q$sj!%d", e.fresh)
+		e.assume(tImp(tNot(ok), mk(fmt.Sprintf("(forall ((%s (_ BitVec 64))) (! (=> (and (bvsle #x0000000000000000 %s) (bvslt %s (slen %s))) (or (select %s %s) (and (bvuge (sat %s %s) #x80) (exists ((k (_ BitVec 64))) (and (bvslt k %s) (bvsle (bvsub %s #x0000000000000003) k) (bvsle #x0000000000000000 k) (select %s k) (bvuge (sat %s k) #x80)))))) :pattern ((sat %s %s))))",
+			qj, qj, qj, x.S, vis.S, qj, x.S, qj, qj, qj, vis.S, x.S, x.S, qj), sBool)))
+		st.set(visitedHeap(rng), e.define("visited", tIte(ok, mk(sapp("store", vis.S, idx.S, "true"), vs), vis)))
+		e.uses["range over string: each iteration yields a not yet yielded in-range byte index; a byte < 0x80 decodes to itself, anything else to a rune >= 0x80; when the range ends every ASCII byte has been yielded and every other byte was yielded or belongs to the rune of a yielded non-ASCII byte just before it"] = true
 		return
 	}
 	mt := rng.X.Type().Underlying().(*types.Map)
